@@ -365,7 +365,16 @@ def st_expr(draw, cols, depth=2, need_ref=False, lit=st.integers(-3, 3), restric
         raise ValueError("need_ref with no columns")
     if restricted and draw(st.integers(0, 99)) < restricted:
         inner = draw(st_expr(cols, max(depth - 1, 0), need_ref, lit, 0))
-        return ("rneg", draw(st.sampled_from(["it", "sql"])), inner)
+        out = ("rneg", draw(st.sampled_from(["it", "sql"])), inner)
+        shape = draw(st.integers(0, 5))
+        if shape == 0:
+            # a second restricted function on top (possibly restricted to the other kind of engine)
+            out = ("rneg", draw(st.sampled_from(["it", "sql"])), out)
+        elif shape == 1:
+            out = ("rneg", draw(st.sampled_from(["it", "sql"])), ("add", out, ("lit", draw(lit))))
+        elif shape == 2:
+            out = ("sub", ("lit", draw(lit)), out)
+        return out
     r = draw(st.integers(0, 99)) if depth > 0 else 0
     if r < 45:
         if cols and (need_ref or draw(st.integers(0, 2)) > 0):
